@@ -141,11 +141,11 @@ int _GD_RawClose(struct gd_raw_file_ *file)
 
   dtrace("%p", file);
 
+  /* the descriptor is released whether or not close reports an error, so the
+   * file must be forgotten in either case (and never closed a second time) */
   ret = close(file->idata);
-  if (!ret) {
-    file->idata = -1;
-    file->mode = 0;
-  }
+  file->idata = -1;
+  file->mode = 0;
 
   dreturn("%i", ret);
   return ret;
